@@ -183,6 +183,7 @@ def run(ctx):
     from .. import litstream as L
     good = L.run_bodywrite(ctx, 120 if ctx.quick else 1500)
     L.run_numdec(ctx, good, 120 if ctx.quick else 2500)
+    L.run_ndbounds(ctx, 600 if ctx.quick else 8000)
     # assets through both decoders
     al = S.assets()
     ia = C.harness(["dops %s 100000 W%s D" % (dt, hx) for (_, dt, hx, _) in al])
